@@ -209,6 +209,15 @@ example : run (Setup.fixed segX) {} [.open fX [], .tick [fX]] = none := by decid
 example : (run (Setup.fixed segX) {} [.open fX [], .open fX [0]]).map (fun s => s.toVCache.entries) =
     some [⟨fX, 2⟩] := by decide
 
+/-- why `open` is legal only while the segment is not closed: a handle that outlives `Clear`
+    followed by a re-open would be counted against the new entry (refs 1, two open handles).
+    `run` refuses that history; the code would panic on the nil cache map. -/
+example :
+    let s := ((({} : HCache).step (Setup.fixed segX) (.open fX [])).step (Setup.fixed segX) .clear).step
+      (Setup.fixed segX) (.open fX [])
+    s.toVCache.entries = [⟨fX, 1⟩] ∧ s.openHandles fX = 2 ∧
+    run (Setup.fixed segX) {} [.open fX [], .clear, .open fX []] = none := by decide
+
 section Report
 #print axioms C16_refs_eq_open_handles
 #print axioms C16_handle_entry_cached
